@@ -1284,6 +1284,13 @@ impl CodeGenerator {
             return self.generate_and_execute_tuples(ir);
         }
 
+        // Aggregates need every tuple of a group in one place: aggregating each
+        // partition separately yields one partial value per partition
+        // (count<X> over 9 rows split 3/6 would return both 3 and 6).
+        if Self::contains_aggregate(ir) {
+            return self.generate_and_execute_tuples(ir);
+        }
+
         // For queries without joins, we can partition and process in parallel
         let num_workers = config.num_workers;
 
@@ -1337,6 +1344,25 @@ impl CodeGenerator {
             IRNode::Compute { input, .. } => Self::contains_join(input),
             IRNode::FlatMap { input, .. } => Self::contains_join(input),
             IRNode::JoinFlatMap { .. } => true,
+        }
+    }
+
+    /// Check if IR tree contains any aggregation
+    fn contains_aggregate(ir: &IRNode) -> bool {
+        match ir {
+            IRNode::Aggregate { .. } => true,
+            IRNode::Scan { .. } | IRNode::HnswScan { .. } => false,
+            IRNode::Map { input, .. }
+            | IRNode::Filter { input, .. }
+            | IRNode::Distinct { input }
+            | IRNode::Compute { input, .. }
+            | IRNode::FlatMap { input, .. } => Self::contains_aggregate(input),
+            IRNode::Union { inputs } => inputs.iter().any(Self::contains_aggregate),
+            IRNode::Join { left, right, .. }
+            | IRNode::Antijoin { left, right, .. }
+            | IRNode::JoinFlatMap { left, right, .. } => {
+                Self::contains_aggregate(left) || Self::contains_aggregate(right)
+            }
         }
     }
 
